@@ -119,6 +119,21 @@ function starChainProject(rng) {
   return { files, label: "star-chain" };
 }
 
+// one package name that means different files for importers in different directories (nested
+// node_modules); compiled through beff_wasm's own resolver as well, with partial registrations
+function nestedPackagesProject(rng) {
+  const pkg = rng.pick(["cfg", "@scope/cfg", "shared-types"]);
+  const files = {
+    [`a/node_modules/${pkg}/index.ts`]: 'export type Cfg = { level: string };\nexport const tag = "a" as const;\n',
+    [`b/node_modules/${pkg}/index.ts`]: 'export type Cfg = { level: number; strict: boolean };\nexport const tag = "b" as const;\n',
+    "a/x.ts": `import { Cfg } from "${pkg}";\nexport type A = { cfg: Cfg };\n`,
+    "b/y.ts": rng.pick([`import { Cfg } from "${pkg}";\nexport type B = { cfg: Cfg };\n`, `import * as p from "${pkg}";\nexport type B = { cfg: p.Cfg; t: typeof p.tag };\n`, `export type B = { cfg: import("${pkg}").Cfg };\n`]),
+    "entry.ts": rng.pick(['import { A } from "./a/x";\nimport { B } from "./b/y";\n', 'import { B } from "./b/y";\nimport { A } from "./a/x";\n']) + "export const P = parse.buildParsers<{ A: A; B: B }>();\n",
+  };
+  if (rng.chance(0.5)) files[`node_modules/${pkg}/index.ts`] = "export type Cfg = { level: null };\n";
+  return { files, label: "nested-packages", viaWasm: true };
+}
+
 function manyDeclsProgram(rng) {
   // many same-shaped declarations (hoist numbering, named-ref substitution) and two-key discriminated unions
   const g = new TypeGen(rng.fork("t"), { maxDepth: 3 });
@@ -140,8 +155,9 @@ export async function run(ctx) {
       [2, "corpus"],
       [2, "near-miss"],
       [2, "star-chain"],
+      [1.5, "nested-packages"],
     ]);
-    const p = kind === "supported" ? manyDeclsProgram(rng) : kind === "typeof-namespace" ? typeofNamespaceProject(rng) : kind === "multifile" ? multiFileProject(rng) : kind === "wild" ? wildProgram(rng) : kind === "near-miss" ? nearMissProject(rng) : kind === "star-chain" ? starChainProject(rng) : mutateCorpus(rng);
+    const p = kind === "supported" ? manyDeclsProgram(rng) : kind === "typeof-namespace" ? typeofNamespaceProject(rng) : kind === "multifile" ? multiFileProject(rng) : kind === "wild" ? wildProgram(rng) : kind === "near-miss" ? nearMissProject(rng) : kind === "star-chain" ? starChainProject(rng) : kind === "nested-packages" ? nestedPackagesProject(rng) : mutateCorpus(rng);
     const base = { files: p.files, settings: p.settings ?? randomSettings(rng) };
     const names = Object.keys(p.files);
     // registration orders: lazy only, everything in three orders, and PARTIAL sets (one file, a random
@@ -150,7 +166,8 @@ export async function run(ctx) {
     if (names.length > 1) {
       orders.push([rng.pick(names.filter((n) => n !== "entry.ts"))]);
       orders.push(rng.shuffle(names).slice(0, 1 + rng.below(names.length - 1)));
-      if (kind === "star-chain") for (const n of names) if (n !== "entry.ts") orders.push([n]);
+      if (kind === "star-chain" || kind === "nested-packages") for (const n of names) if (n !== "entry.ts") orders.push([n]);
+      if (kind === "nested-packages") orders.push(["a/x.ts", "b/y.ts"], ["b/y.ts", "a/x.ts"]);
     }
     const runs = [];
     // (1) fresh OS processes (fresh std RandomState), different registration orders
@@ -158,6 +175,15 @@ export async function run(ctx) {
       const order = orders[k % orders.length];
       const res = compileOnce({ ...base, order: order ?? undefined, cpu_budget_ms: 10000 }, { timeoutMs: 60000 });
       runs.push({ how: `process#${k}`, order, fp: fingerprint(res), outcome: res.outcome });
+    }
+    // the same through beff_wasm's own session, file manager and resolver (a registration = an
+    // update_file_content before the build), for the projects that ask for it and a sample of the rest
+    if (p.viaWasm || rng.chance(0.1)) {
+      for (let k = 0; k < orders.length; k++) {
+        const res = compileOnce({ ...base, via: "wasm", order: orders[k] ?? undefined, cpu_budget_ms: 10000 }, { timeoutMs: 60000 });
+        runs.push({ how: `wasm-session#${k}`, order: orders[k], fp: fingerprint(res), outcome: res.outcome });
+      }
+      ctx.count("projects_also_through_the_wasm_layer");
     }
     // (2) the long-lived server process, after unrelated compilations (fresh thread per request)
     for (let k = 0; k < 2; k++) {
